@@ -34,6 +34,8 @@ func init() {
 		"Observe":    ndObserve,
 		"Fail":       ndFail,
 		"Param":      ndParam,
+		"CaptureFormats": func(fr *frame, a []value) (value, bool) { fr.i.ps.captureFmt = a[0].(bool); return nil, true },
+		"FloatsOf":   ndFloatsOf,
 	} {
 		intrinsics[ndPkg+k] = v
 	}
@@ -216,4 +218,23 @@ func ndParam(fr *frame, a []value) (value, bool) {
 		return v, true
 	}
 	return a[1], true
+}
+
+// FloatsOf(s): the float operands of the captured Sprintf call whose
+// placeholder is s (see CaptureFormats).
+func ndFloatsOf(fr *frame, a []value) (value, bool) {
+	s, ok := a[0].(string)
+	if !ok || len(s) < 3 || s[0] != 0 || s[1] != 'F' {
+		panic(engineError{"FloatsOf: argument is not a captured format placeholder"})
+	}
+	var id int
+	fmt.Sscanf(s[2:], "%d", &id)
+	var out []value
+	for _, arg := range fr.i.ps.captures[id] {
+		v := arg.(iface).v
+		if isFloatVal(v) {
+			out = append(out, v)
+		}
+	}
+	return out, true
 }
